@@ -243,7 +243,7 @@ func (b *instBackend) Fetch(ctx context.Context, key string) ([]byte, error) {
 		w.ev("%d fetch %s nf", b.inst, key)
 		return nil, fmt.Errorf("key %q not found", key)
 	}
-	w.ev("%d fetch %s ok %s %d", b.inst, key, sqHx(sqSha(o.data)), len(o.data))
+	w.ev("%d fetch %s ok %s", b.inst, key, b.payloadToken(key, o.data, &o.opts))
 	return bytes.Clone(o.data), nil
 }
 
